@@ -46,10 +46,14 @@ def order_exprs(fn: ast.AST) -> set[str]:
     for n in ast.walk(fn):
         if isinstance(n, ast.Attribute) and n.attr == "attrpath_order":
             out.add(norm(n))
-        if isinstance(n, ast.Assign) and isinstance(n.value, ast.Call) and callee(n.value) == "_attrpath_order":
+        if isinstance(n, ast.Assign) and ((isinstance(n.value, ast.Call) and callee(n.value) == "_attrpath_order")
+                                          or (isinstance(n.value, ast.Attribute) and n.value.attr == "attrpath_order")):
             for t in n.targets:
                 if isinstance(t, ast.Name):
-                    out.add(t.id)
+                    out.add(t.id)  # a local that names the order list
+        if isinstance(n, ast.NamedExpr) and isinstance(n.target, ast.Name) and ((isinstance(n.value, ast.Call) and callee(n.value) == "_attrpath_order")
+                                                                                 or (isinstance(n.value, ast.Attribute) and n.value.attr == "attrpath_order")):
+            out.add(n.target.id)
     return out
 
 
@@ -82,9 +86,8 @@ def mirror_tests(cfg: CFG, orders: set[str]):
                 covered |= {id(o) for o in ops}
     for t in cfg.nodes:
         if t.kind == "for" and isinstance(t.ast, ast.For):
-            it = t.ast.iter
-            if isinstance(it, ast.Call) and isinstance(it.func, ast.Name) and it.func.id in ("enumerate", "list", "reversed") and it.args:
-                it = it.args[0]
+            from sa.seqbuild import _rev
+            it = _rev(t.ast.iter)[0]  # enumerate(…), list(…), `… or ()` are looked through
             tx = norm(it)
             if tx not in orders:
                 continue
@@ -92,6 +95,18 @@ def mirror_tests(cfg: CFG, orders: set[str]):
             if ops:
                 out.append((t, ops))
                 covered |= {id(o) for o in ops}
+    has_removal = any(isinstance(o, ast.Delete) or (isinstance(o, ast.Call) and o.func.attr in ("remove", "pop"))
+                      for t in cfg.nodes if t.ast is not None and t.kind == "stmt" for o in _order_ops(t.ast, None, orders))
+    for t in cfg.nodes:
+        # `pos = next((i for i, e in enumerate(<order>) if …), None)` followed by a guarded `del <order>[pos]`: the search is the
+        # point every path passes; it finds nothing in an empty list
+        if t.kind in ("stmt", "test") and t.ast is not None and has_removal:
+            for g in ast.walk(t.ast):
+                if isinstance(g, (ast.GeneratorExp, ast.ListComp)):
+                    from sa.seqbuild import _rev
+                    it = _rev(g.generators[0].iter)[0]
+                    if norm(it) in orders and not any(t is x for x, _ in out):
+                        out.append((t, []))
     for t in cfg.nodes:
         if t.kind == "stmt" and t.ast is not None:
             # only removals may go unguarded: appending to an *empty* order list would make the renderer switch to it and drop
@@ -162,40 +177,64 @@ def run(prog: Program, roots=None, prop="C14", rid_prefix="R-C14") -> Results:
             continue
         f = prog.func(key)
         cfg = cfgs.setdefault(key, CFG(f.node))
-        for t, ops in mirror_tests(cfg, order_exprs(f.node)):
-            dels = [o for o in ops if isinstance(o, ast.Delete)]
-            if not dels:
+        orders_ = order_exprs(f.node)
+        pm = parent_map(f.node)
+        from sa.seqbuild import _rev as _rv
+        for d in [x for x in ast.walk(f.node) if isinstance(x, ast.Delete)]:
+            tg = next((x for x in d.targets if isinstance(x, ast.Subscript) and norm(x.value) in orders_ and isinstance(x.slice, ast.Name)), None)
+            if tg is None:
                 continue
-            r2.instances += 1
-            pm = parent_map(f.node)
-            guard = None
-            cur = pm.get(dels[0])
-            region = getattr(t, "stmt", None) or t.ast
-            while cur is not None and cur is not region:
-                if isinstance(cur, ast.If):
-                    guard = cur
-                cur = pm.get(cur)
-            gtxt = norm(guard.test) if guard is not None else ""
-            loop_ = None
-            cur = pm.get(dels[0])
+            idx, otxt = tg.slice.id, norm(tg.value)
+            # the predicate that selects the entry: tests between an enclosing loop over the order list and the deletion, the
+            # condition of a `next(<generator over the order list>)` that produced the index, or the test guarding `break` in
+            # a search loop that precedes the deletion
+            pred, elem, where = [], None, None
+            cur = pm.get(d)
+            chain = []
             while cur is not None:
-                if isinstance(cur, ast.For):
-                    loop_ = cur
+                if isinstance(cur, ast.If):
+                    chain.append(cur)
+                if isinstance(cur, ast.For) and norm(_rv(cur.iter)[0]) == otxt:
+                    pred, where = [c.test for c in chain], cur
+                    elem = cur.target.elts[1].id if isinstance(cur.target, ast.Tuple) and len(cur.target.elts) == 2 and isinstance(cur.target.elts[1], ast.Name) \
+                        else (cur.target.id if isinstance(cur.target, ast.Name) else None)
                     break
                 cur = pm.get(cur)
-            elem = None
-            if loop_ is not None and isinstance(loop_.target, ast.Tuple) and len(loop_.target.elts) == 2 and isinstance(loop_.target.elts[1], ast.Name):
-                elem = loop_.target.elts[1].id
-            elif loop_ is not None and isinstance(loop_.target, ast.Name):
-                elem = loop_.target.id
-            plain = guard is not None and any(isinstance(c, ast.Compare) and isinstance(c.ops[0], ast.Is) and isinstance(c.left, ast.Name)
-                                              and c.left.id == elem and isinstance(c.comparators[0], ast.Name) for c in ast.walk(guard.test))
+            if where is None:
+                for a in ast.walk(f.node):
+                    v = a.value if isinstance(a, (ast.Assign, ast.NamedExpr)) else None
+                    tgt_ok = isinstance(a, ast.Assign) and any(norm(t_) == idx for t_ in a.targets) or (isinstance(a, ast.NamedExpr) and norm(a.target) == idx)
+                    if v is not None and tgt_ok and isinstance(v, ast.Call) and callee(v) == "next" and v.args and isinstance(v.args[0], ast.GeneratorExp):
+                        g = v.args[0].generators[0]
+                        if norm(_rv(g.iter)[0]) == otxt:
+                            pred, where = list(g.ifs), a
+                            elem = g.target.elts[1].id if isinstance(g.target, ast.Tuple) and len(g.target.elts) == 2 and isinstance(g.target.elts[1], ast.Name) else None
+            if where is None:
+                for lp in ast.walk(f.node):
+                    if isinstance(lp, ast.For) and norm(_rv(lp.iter)[0]) == otxt and isinstance(lp.target, ast.Tuple) and norm(lp.target.elts[0]) == idx \
+                            and not any(d is x for x in ast.walk(lp)):
+                        brk = [b for b in ast.walk(lp) if isinstance(b, ast.Break)]
+                        tests = []
+                        for b in brk:
+                            c2 = pm.get(b)
+                            while c2 is not None and c2 is not lp:
+                                if isinstance(c2, ast.If):
+                                    tests.append(c2.test)
+                                c2 = pm.get(c2)
+                        pred, where = tests, lp
+                        elem = lp.target.elts[1].id if isinstance(lp.target.elts[1], ast.Name) else None
+            if where is None:
+                continue
+            r2.instances += 1
+            gtxt = " and ".join(norm(p_) for p_ in pred)
+            plain = any(isinstance(c, ast.Compare) and isinstance(c.ops[0], ast.Is) and isinstance(c.left, ast.Name)
+                        and c.left.id == elem and isinstance(c.comparators[0], ast.Name) for p_ in pred for c in ast.walk(p_))
             entry = ".binding is" in gtxt or "'binding'" in gtxt or "_AttrpathEntry" in gtxt
             proves_leaf = key == "_remove_attrpath_value" and "leaf_nested=False" in norm(f.node)
             ok = (plain and entry) or (entry and proves_leaf)
             r2.ob(ok, {"site": key, "predicate": gtxt})
             if not ok:
-                res.add(f"{rid_prefix}-2", (key, "order entry kinds"), f.loc(guard or dels[0]),
+                res.add(f"{rid_prefix}-2", (key, "order entry kinds"), f.loc(d),
                         f"{key} locates the order entry with `{gtxt}`: it matches plain bindings only, so deleting a binding written "
                         f"in attrpath form (a.b = …) leaves its _AttrpathEntry behind and the text still shows it")
     if prog.has_func("AttributeSet.__setitem__"):
